@@ -92,6 +92,10 @@ def result_propagated(facts, fn, bb):
             if b2 in c.pdom().get(bb, set()) or b2 == bb:
                 return True
             return False
+    for b2, t2 in fn.calls():
+        if t2["dest"] == {"l": 0, "p": []} and norm(cname(t2)).rsplit("::", 1)[-1] in ("map", "map_err", "and_then") and "result::Result" in norm(cname(t2)) and t2["args"]:
+            if is_r(sy.operand(t2["args"][0])):
+                return True  # an Err stays an Err through these combinators and is what the function returns
     for bi, b in enumerate(fn.blocks):
         if b["cleanup"]:
             continue
